@@ -12,6 +12,8 @@ import (
 
 func usage() {
 	fmt.Fprintln(os.Stderr, "usage: harness run <opsfile|->")
+	fmt.Fprintln(os.Stderr, "       harness apprun <opsfile|->     (same ops, driven through the real app's ABCI path)")
+	fmt.Fprintln(os.Stderr, "       harness appgen -seed <int> -histories <N> -maxops <L> -ops <opsfile> -obs <obsfile>")
 	fmt.Fprintln(os.Stderr, "       harness gen -seed <int> -histories <N> -maxops <L> -ops <opsfile> -obs <obsfile> [-profile quick|thorough] [-focus hooks|faults]")
 	os.Exit(2)
 }
@@ -29,8 +31,21 @@ func main() {
 			fmt.Fprintln(os.Stderr, "harness:", err)
 			os.Exit(1)
 		}
+	case "apprun":
+		if len(os.Args) != 3 {
+			usage()
+		}
+		if err := runFileWith(os.Args[2], os.Stdout, NewAppEnv); err != nil {
+			fmt.Fprintln(os.Stderr, "harness:", err)
+			os.Exit(1)
+		}
+	case "appgen":
+		if err := genMain(os.Args[2:], true); err != nil {
+			fmt.Fprintln(os.Stderr, "harness:", err)
+			os.Exit(1)
+		}
 	case "gen":
-		if err := genMain(os.Args[2:]); err != nil {
+		if err := genMain(os.Args[2:], false); err != nil {
 			fmt.Fprintln(os.Stderr, "harness:", err)
 			os.Exit(1)
 		}
@@ -41,7 +56,9 @@ func main() {
 
 // runFile executes every op of the file (blank lines and lines starting with '#' are skipped
 // without producing a block) and writes the observation blocks to w, flushing after each.
-func runFile(path string, w io.Writer) error {
+func runFile(path string, w io.Writer) error { return runFileWith(path, w, NewEnv) }
+
+func runFileWith(path string, w io.Writer, newEnv func() (*Env, error)) error {
 	var in io.Reader = os.Stdin
 	if path != "-" {
 		f, err := os.Open(path)
@@ -51,7 +68,7 @@ func runFile(path string, w io.Writer) error {
 		defer f.Close()
 		in = f
 	}
-	e, err := NewEnv()
+	e, err := newEnv()
 	if err != nil {
 		return err
 	}
